@@ -19,11 +19,14 @@ import (
 // a violation by itself.  Classification:
 //   - wt rejects and Go crashes  -> property violation, key "wt-reject:<reason>"
 //     (a hole of the Go checker, predicted by the verified checker)
-//   - wt accepts inside the proved Stage-1 fragment and Go crashes
-//     -> correspondence violation "stage1-crash" (contradicts C02_soundness_partial:
-//     the model or the export is wrong)
+//   - wt accepts inside the proved fragment (Static.s2_program: everything except the
+//     un-modelled built-ins; the answer is "(wt true <in s2> <in s1>)") and Go crashes
+//     -> correspondence violation "stage1-crash" (contradicts C02_soundness_modulo_overflow_partial /
+//     C02_handlers_modulo_overflow_partial: the model or the export is wrong; a stack overflow on a
+//     cyclic value kills the process and is not seen here)
 //   - wt accepts outside the fragment and Go crashes -> property violation,
-//     key "wt-accept:<panic class>" (Stage 2 is not proved)
+//     key "wt-accept:<panic class>" (not proved)
+//   - after a normal run one well-formed event is delivered to every declared handler
 //   - wt rejects and Go runs fine -> only counted ("wt-stricter:<reason>")
 // The cyclic-value program (a[0] = a / print a) kills the process with a stack
 // overflow that recover cannot catch; it is listed in findings.d and not run here.
@@ -109,7 +112,7 @@ func runC02WT(cfg Config, r *Result) {
 	for i := 0; i < n; i++ {
 		// the whole proved fragment: functions, event handlers, read, empty literals in arbitrary positions
 		src, _, _ := GenProgram(cfg.Rng, GenOpts{MaxStmts: 8, MaxDepth: 2, Funcs: i%2 == 0, Handlers: i%3 == 0, Reads: i%5 == 0,
-			Empties: i%4 == 0, Specials: true, Gfx: true, MapLitPure: true})
+			Empties: i%4 == 0, Tests: i%7 == 0, Specials: true, Gfx: true, MapLitPure: true})
 		progs = append(progs, src)
 	}
 	for _, src := range progs {
